@@ -512,6 +512,7 @@ wait_atomic_ge(atomic_int *a, int want, int timeout_ms, victim *v)
 	return true;
 }
 
+static void settle(victim *v, int ms);
 static int
 live_ctl(const victim *v)
 {
@@ -620,21 +621,39 @@ ctl_connect(victim *v, int k)
 	nng_pipe_notify(c->s, NNG_PIPE_EV_REM_POST, c_pipe_cb, c);
 	int post0 = atomic_load(&v->post);
 	if (v->tran == T_SOCKFD) {
+		// socket:// has no dialer that would try again: when a single-peer
+		// victim refuses the connection because a (dead, not yet noticed)
+		// earlier peer still holds the slot, hand over a new socketpair
 		nng_listener cl;
-		int          sv[2];
-		if (socketpair(AF_UNIX, SOCK_STREAM | SOCK_CLOEXEC, 0, sv) != 0) vf_harness_fail("socketpair");
-		if ((rv = nng_listener_create(&cl, c->s, "socket://")) != 0 || (rv = nng_listener_start(cl, 0)) != 0 ||
-		    (rv = nng_listener_set_int(cl, NNG_OPT_SOCKET_FD, sv[1])) != 0 ||
-		    (rv = nng_listener_set_int(v->l, NNG_OPT_SOCKET_FD, sv[0])) != 0) vf_harness_fail("ctl sockfd: %s", nng_strerror(rv));
-	} else {
-		switch (v->tran) {
-		case T_TCP: snprintf(durl, sizeof(durl), "tcp://127.0.0.1:%d", v->port); break;
-		case T_WS: snprintf(durl, sizeof(durl), "ws://127.0.0.1:%d/c11", v->port); break;
-		case T_UDP: snprintf(durl, sizeof(durl), "udp://127.0.0.1:%d", v->port); break;
-		default: snprintf(durl, sizeof(durl), "%s", v->url); break;
+		uint64_t     end = vf_now_ns() + 8000ULL * 1000000ULL;
+		if ((rv = nng_listener_create(&cl, c->s, "socket://")) != 0 || (rv = nng_listener_start(cl, 0)) != 0) vf_harness_fail("ctl sockfd: %s", nng_strerror(rv));
+		for (;;) {
+			int sv[2];
+			int adds0 = atomic_load(&c->add), rems0 = atomic_load(&c->rem);
+			if (socketpair(AF_UNIX, SOCK_STREAM | SOCK_CLOEXEC, 0, sv) != 0) vf_harness_fail("socketpair");
+			if ((rv = nng_listener_set_int(cl, NNG_OPT_SOCKET_FD, sv[1])) != 0 ||
+			    (rv = nng_listener_set_int(v->l, NNG_OPT_SOCKET_FD, sv[0])) != 0) vf_harness_fail("ctl sockfd: %s", nng_strerror(rv));
+			int64_t left = ((int64_t) end - (int64_t) vf_now_ns()) / 1000000;
+			if (left <= 0 || !wait_atomic_ge(&c->add, adds0 + 1, (int) left, v)) return false;
+			left = ((int64_t) end - (int64_t) vf_now_ns()) / 1000000;
+			if (left <= 0 || !wait_atomic_ge(&v->post, post0 + 1, (int) left, v)) return false;
+			if (!v->vp->single) return true;
+			// refused? (the refusal follows the acceptance at once)
+			uint64_t g = vf_now_ns() + 15ULL * 1000000ULL;
+			while (vf_now_ns() < g && atomic_load(&c->rem) == rems0) vf_usleep(300);
+			if (atomic_load(&c->rem) == rems0) return true;
+			vf_stat("control_refused_slot_taken_retry", 1);
+			post0 = atomic_load(&v->post);
+			settle(v, 300);
 		}
-		if ((rv = nng_dial(c->s, durl, NULL, NNG_FLAG_NONBLOCK)) != 0) vf_harness_fail("ctl dial %s: %s", durl, nng_strerror(rv));
 	}
+	switch (v->tran) {
+	case T_TCP: snprintf(durl, sizeof(durl), "tcp://127.0.0.1:%d", v->port); break;
+	case T_WS: snprintf(durl, sizeof(durl), "ws://127.0.0.1:%d/c11", v->port); break;
+	case T_UDP: snprintf(durl, sizeof(durl), "udp://127.0.0.1:%d", v->port); break;
+	default: snprintf(durl, sizeof(durl), "%s", v->url); break;
+	}
+	if ((rv = nng_dial(c->s, durl, NULL, NNG_FLAG_NONBLOCK)) != 0) vf_harness_fail("ctl dial %s: %s", durl, nng_strerror(rv));
 	if (!wait_atomic_ge(&c->add, 1, 8000, v)) return false;
 	if (!wait_atomic_ge(&v->post, post0 + 1, 8000, v)) return false;
 	return true;
@@ -1294,8 +1313,12 @@ plan_mutate(const victim *v, plan *pl, vf_rng *r, int m)
 		memcpy(pl->hs + 8, pl->hs, 8);
 		pl->hslen = 16;
 		break;
-	case M_LEN_0: f->lk = L_VALUE; f->lv = 0; break;
-	case M_LEN_1: f->lk = L_VALUE; f->lv = 1; break;
+	// A length smaller than what follows desynchronises the stream: the next
+	// "length" is made of payload bytes (e.g. 00 00 00 0e 43 31 31 64 = 60 GB
+	// after a pair1 hop word).  With RECVMAXSZ 0 the library rightly tries to
+	// allocate that, and the accounting allocator touches it: only with a limit.
+	case M_LEN_0: if (!mx && v->tran <= T_IPC) return false; f->lk = L_VALUE; f->lv = 0; break;
+	case M_LEN_1: if (!mx && v->tran <= T_IPC) return false; f->lk = L_VALUE; f->lv = 1; break;
 	case M_LEN_MAXM1:
 	case M_LEN_MAX:
 	case M_BIG_VALID: {
@@ -1335,7 +1358,7 @@ plan_mutate(const victim *v, plan *pl, vf_rng *r, int m)
 		f->lk = L_PLUS; f->lv = 1 + vf_below(r, mx ? 20 : 60000);
 		pl->nfr = j + 1; // nothing follows: the frame stays incomplete
 		break;
-	case M_LEN_LESS: f->lk = L_MINUS; f->lv = 1 + vf_below(r, 12); break;
+	case M_LEN_LESS: if (!mx && v->tran <= T_IPC) return false; f->lk = L_MINUS; f->lv = 1 + vf_below(r, 12); break;
 	case M_HDR_MISSING: f->hk = H_NONE; break;
 	case M_HDR_TRUNC: f->hk = H_TRUNC; f->n = 1 + (int) vf_below(r, 3); f->blen = 0; break;
 	case M_HDR_NOTERM: {
